@@ -232,16 +232,20 @@ Proof.
   apply Z.eqb_eq in E. subst y. destruct (IH s H) as [post Hp]. exists post. cbn [app]. rewrite Hp. reflexivity.
 Qed.
 
-Lemma rfind_from_spec pat : forall s pos last p, rfind_from s pat pos last = Some p ->
+Lemma rfind_from_spec pat : forall s pos q last p, rfind_from s pat pos q last = Some p ->
   last = Some p \/ exists pre post, s = pre ++ pat ++ post /\ p = pos + blen pre.
 Proof.
-  induction s as [|c s IH]; intros pos last p H; cbn [rfind_from] in H.
-  - destruct (str_starts [] pat) eqn:E; [|left; exact H].
-    inversion H; subst. right. destruct (str_starts_split pat [] E) as [post Hp]. exists [], post. split; [exact Hp|cbn; lia].
-  - apply IH in H. destruct H as [H|[pre [post [E1 E2]]]].
-    + destruct (str_starts (c :: s) pat) eqn:E; [|left; exact H].
-      inversion H; subst. right. destruct (str_starts_split pat (c :: s) E) as [post Hp]. exists [], post. split; [exact Hp|cbn; lia].
-    + right. exists (c :: pre), post. split; [cbn [app]; rewrite E1; reflexivity|cbn [blen]; lia].
+  induction s as [|c s IH]; intros pos q last p H; cbn [rfind_from] in H; [left; exact H|].
+  assert (Hshift : forall q' last', rfind_from s pat (pos + utf8_len c) q' last' = Some p ->
+            last' = Some p \/ exists pre post, c :: s = pre ++ pat ++ post /\ p = pos + blen pre).
+  { intros q' last' H'. apply IH in H'. destruct H' as [H'|[pre [post [E1 E2]]]]; [left; exact H'|].
+    right. exists (c :: pre), post. split; [cbn [app]; rewrite E1; reflexivity|cbn [blen]; lia]. }
+  destruct q as [x|].
+  - apply Hshift in H. exact H.
+  - destruct (is_quote c); [apply Hshift in H; exact H|].
+    apply Hshift in H. destruct H as [H|H]; [|right; exact H].
+    destruct (str_starts (c :: s) pat) eqn:E; [|left; exact H].
+    inversion H; subst. right. destruct (str_starts_split pat (c :: s) E) as [post Hp]. exists [], post. split; [exact Hp|cbn; lia].
 Qed.
 
 Lemma first_op_spec s : forall ops pos p o, first_op s ops = Some (pos, p, o) ->
@@ -302,35 +306,41 @@ Proof.
   destruct (c0 =? c) eqn:Q; [|reflexivity]. apply Z.eqb_eq in Q. subst c0. congruence.
 Qed.
 
-Lemma rfind_from_nocmp pat : cmp_pat pat -> forall s pos last, nocmp s = true -> rfind_from s pat pos last = last.
+Lemma rfind_from_nocmp pat : cmp_pat pat -> forall s pos q last, nocmp s = true -> rfind_from s pat pos q last = last.
 Proof.
-  intros Hp. induction s as [|c s IH]; intros pos last H; cbn [rfind_from].
-  - destruct Hp as [c0 [rest [E _]]]. subst pat. reflexivity.
-  - unfold nocmp in H. cbn [forallb] in H. apply andb_true_iff in H. destruct H as [Hc Hs]. apply negb_true_iff in Hc.
-    rewrite (starts_nocmp c s pat Hc Hp). apply IH. exact Hs.
+  intros Hp. induction s as [|c s IH]; intros pos q last H; cbn [rfind_from]; [reflexivity|].
+  unfold nocmp in H. cbn [forallb] in H. apply andb_true_iff in H. destruct H as [Hc Hs]. apply negb_true_iff in Hc.
+  destruct q as [x|]; [apply IH; exact Hs|]. destruct (is_quote c); [apply IH; exact Hs|].
+  rewrite (starts_nocmp c s pat Hc Hp). apply IH. exact Hs.
 Qed.
 
-Lemma rfind_from_app_nocmp pat : cmp_pat pat -> forall L rest pos last, nocmp L = true ->
-  rfind_from (L ++ rest) pat pos last = rfind_from rest pat (pos + blen L) last.
+Lemma rfind_from_app_nocmp pat : cmp_pat pat -> forall L rest pos q last, nocmp L = true ->
+  rfind_from (L ++ rest) pat pos q last = rfind_from rest pat (pos + blen L) (qafter L q) last.
 Proof.
-  intros Hp. induction L as [|c L IH]; intros rest pos last H.
-  - cbn [app blen]. f_equal. lia.
+  intros Hp. induction L as [|c L IH]; intros rest pos q last H.
+  - cbn [app blen qafter]. f_equal. lia.
   - unfold nocmp in H. cbn [forallb] in H. apply andb_true_iff in H. destruct H as [Hc Hs]. apply negb_true_iff in Hc.
-    cbn [app rfind_from]. rewrite (starts_nocmp c (L ++ rest) pat Hc Hp). rewrite IH by exact Hs. cbn [blen]. f_equal. lia.
+    cbn [app rfind_from qafter blen].
+    destruct q as [x|].
+    + rewrite IH by exact Hs. f_equal. lia.
+    + destruct (is_quote c).
+      * rewrite IH by exact Hs. f_equal. lia.
+      * rewrite (starts_nocmp c (L ++ rest) pat Hc Hp). rewrite IH by exact Hs. f_equal. lia.
 Qed.
 
 Ltac cmp_pat_solve := eexists; eexists; split; [reflexivity|reflexivity].
 
-Lemma first_op_cmp L R o : nocmp L = true -> nocmp R = true -> is_cmp6 o = true ->
+Lemma first_op_cmp L R o : nocmp L = true -> nocmp R = true -> balq L = true -> is_cmp6 o = true ->
   first_op (L ++ [32] ++ op_str o ++ [32] ++ R) cmp_ops = Some (blen L + 1, op_str o, o).
 Proof.
-  intros HL HR Ho.
+  intros HL HR HB Ho.
+  assert (HQ : qafter L None = None) by (unfold balq in HB; destruct (qafter L None); [discriminate|reflexivity]).
   assert (P1 : cmp_pat [62; 61]) by cmp_pat_solve. assert (P2 : cmp_pat [60; 61]) by cmp_pat_solve.
   assert (P3 : cmp_pat [61; 61]) by cmp_pat_solve. assert (P4 : cmp_pat [33; 61]) by cmp_pat_solve.
   assert (P5 : cmp_pat [62]) by cmp_pat_solve. assert (P6 : cmp_pat [60]) by cmp_pat_solve.
   destruct o; try discriminate; unfold first_op, cmp_ops, rfind, op_str;
-    repeat (rewrite rfind_from_app_nocmp by assumption;
-            cbn [app rfind_from str_starts Z.eqb Pos.eqb andb];
+    repeat (rewrite rfind_from_app_nocmp by assumption; rewrite HQ;
+            cbn [app rfind_from str_starts is_quote Z.eqb Pos.eqb andb orb];
             rewrite rfind_from_nocmp by assumption);
     (f_equal; f_equal; f_equal; change (utf8_len 32) with 1; lia).
 Qed.
@@ -392,16 +402,16 @@ Lemma ctest_agree f l o r b : (forall p, l <> AField p) -> cmp_ok l o r -> den_c
 Proof.
   intros Hnf Hok Hd.
   assert (Hok' : lhs_simple l = true /\ wf l = true /\ atoms_ok l /\ is_cmp6 o = true /\ wf r = true /\ atoms_ok r /\ ctest_rhs_ok r
-                 /\ nocmp (pr l) = true /\ nocmp (pr r) = true).
+                 /\ nocmp (pr l) = true /\ nocmp (pr r) = true /\ balq (pr l) = true).
   { destruct l; try exact Hok. exfalso. eapply Hnf. reflexivity. }
-  destruct Hok' as [Ls [Wl [Al [O6 [Wr [Ar [Cr [Nl Nr]]]]]]]].
+  destruct Hok' as [Ls [Wl [Al [O6 [Wr [Ar [Cr [Nl [Nr Bl]]]]]]]]].
   assert (Hd' : match den f l, den f r with Some x, Some y => sem_cmp o x y | _, _ => None end = Some b).
   { destruct l; try exact Hd. exfalso. eapply Hnf. reflexivity. }
   destruct (den f l) as [x|] eqn:Dl; [|discriminate]. destruct (den f r) as [y|] eqn:Dr; [|discriminate].
   exists {| c_expr := CTest (pr l ++ [32] ++ op_str o ++ [32] ++ trim ws (pr r)); c_op := OEq; c_val := VBool true |}.
   split. { unfold compile_cmp. rewrite Ls. destruct l; try reflexivity. exfalso. eapply Hnf. reflexivity. }
   unfold eval_single. cbn [c_expr]. rewrite (trim_pr r Wr).
-  unfold eval_arith_cond. rewrite (first_op_cmp (pr l) (pr r) o Nl Nr O6).
+  unfold eval_arith_cond. rewrite (first_op_cmp (pr l) (pr r) o Nl Nr Bl O6).
   assert (S1 : slice (pr l ++ [32] ++ op_str o ++ [32] ++ pr r) 0 (blen (pr l) + 1) = Some (pr l ++ [32])).
   { pose proof (slice_prefix (pr l ++ [32]) (op_str o ++ [32] ++ pr r)) as S. rewrite blen_app in S. cbn [blen] in S.
     change (utf8_len 32) with 1 in S. replace (blen (pr l) + (1 + 0)) with (blen (pr l) + 1) in S by lia.
